@@ -125,8 +125,9 @@ def undeclare(mod):
     sys.modules.pop(mod.__name__, None)
 
 
-def chain(shape, D, positions, siblings=0, leaf=None, bottom_leaf=None):
-    """input of data-class nesting depth D; positions[i] = where level i+1 sits inside level i"""
+def chain(shape, D, positions, siblings=0, leaf=None, bottom_leaf=None, shared=False):
+    """input of data-class nesting depth D; positions[i] = where level i+1 sits inside level i
+    shared: the siblings of a level are ONE object used several times, and the deeper node itself appears twice (a DAG, no cycle)"""
     node = {"v": D}
     if leaf is not None:
         node["leaf"] = bottom_leaf if bottom_leaf is not None else leaf
@@ -137,13 +138,17 @@ def chain(shape, D, positions, siblings=0, leaf=None, bottom_leaf=None):
             sib["leaf"] = leaf
         if shape in LISTLIKE:
             p = pos if isinstance(pos, int) else 0
-            items = [dict(sib) for _ in range(max(siblings, p))]
+            items = [sib if shared else dict(sib) for _ in range(max(siblings, p))]
             items.insert(min(p, len(items)), node)
+            if shared:
+                items.append(node)
             child = items
         elif shape in DICTLIKE:
             child = {(pos if isinstance(pos, str) else "k"): node}
             for j in range(siblings):
-                child[f"s{j}"] = dict(sib)
+                child[f"s{j}"] = sib if shared else dict(sib)
+            if shared:
+                child["again"] = node
         elif shape == "tuple":
             child = (level, node)
         else:
@@ -172,7 +177,7 @@ def judge_depth(case):
     # runtime-override: the class declares another limit (or none); Options(max_depth=d, override=True) passed to __from__ governs every level
     mod, N = declare(shape, d if how == "class" else case.get("class_limit"), base=case.get("base", "Schema"), collect=bool(case.get("collect")))
     try:
-        x = chain(shape, D, positions, siblings=case.get("siblings", 0))
+        x = chain(shape, D, positions, siblings=case.get("siblings", 0), shared=bool(case.get("shared")))
         if how == "class":
             out = oracle.outcome(N.__from__, x)
         else:
@@ -187,7 +192,7 @@ def judge_depth(case):
         if (out[0] == "ok") != want:
             kind = "accepts-deeper-than-max_depth" if out[0] == "ok" else "rejects-within-max_depth"
             falsy = any(p in (0, "") for p in positions)
-            fails.append((f"depth/{kind}/{shape}/{'falsy-position' if falsy else 'position'}{'' if how == 'class' else '/' + how}",
+            fails.append((f"depth/{kind}/{shape}/{'falsy-position' if falsy else 'position'}{'' if how == 'class' else '/' + how}{'/shared-subtrees' if case.get('shared') else ''}",
                           {"D": D, "max_depth": d, "positions": pos, "limit_from": how, "class_limit": case.get("class_limit"),
                            "error": None if out[0] == "ok" else str(out[1])[:200]}))
         return {"status": "accepted" if out[0] == "ok" else "rejected", "fails": fails}
@@ -335,6 +340,11 @@ def campaign(ctx):
         for D in range(1, 6):
             for d in (1, 2, 3):
                 grid.append({"part": "depth", "shape": shape, "D": D, "max_depth": d, "positions": [POSITIONS[shape][-1]], "collect": True})
+        if shape in LISTLIKE + DICTLIKE:
+            # one object used in several places of a non-cyclic input (siblings, and the deeper node twice): depth counts as usual
+            for D in range(1, 5):
+                for d in (2, 3, 4):
+                    grid.append({"part": "depth", "shape": shape, "D": D, "max_depth": d, "positions": [POSITIONS[shape][0]], "siblings": 2, "shared": True})
     for shape in SHAPES:
         for pos in POSITIONS[shape][:2]:
             for D in range(1, 6):
@@ -364,7 +374,7 @@ def campaign(ctx):
     # 2. random compositions
     rand = st.one_of(
         st.fixed_dictionaries({"part": st.just("depth"), "shape": st.sampled_from(SHAPES), "D": st.integers(1, 6),
-                               "max_depth": st.sampled_from([None, 1, 2, 3, 4, 5]), "siblings": st.integers(0, 2),
+                               "max_depth": st.sampled_from([None, 1, 2, 3, 4, 5]), "siblings": st.integers(0, 2), "shared": st.booleans(),
                                "base": st.sampled_from(["Schema", "Schema", "DataClass"]),
                                "positions": st.lists(st.sampled_from([0, 1, 2, "", "k", "0", "x y"]), min_size=1, max_size=5),
                                "limit_from": st.sampled_from(["class", "class", "runtime-override"]), "class_limit": st.sampled_from([None, 1, 3, 5]),
